@@ -210,7 +210,7 @@ def known_match(kf, prop, failure):
     return all(re.search(p, text) for p in kf.get("match", []))
 
 
-def run_harness(binary, prop, tier, seed, log, extra_env=None, timeout=None):
+def run_harness(binary, prop, tier, seed, log, extra_env=None, timeout=None, budget=None):
     os.makedirs(os.path.join(ROOT, "work"), exist_ok=True)
     outp = os.path.join(ROOT, "work", "%s-%s-%d.json" % (prop, tier, os.getpid()))
     env = dict(GOENV)
@@ -218,6 +218,8 @@ def run_harness(binary, prop, tier, seed, log, extra_env=None, timeout=None):
     if extra_env:
         env.update(extra_env)
     cmd = [binary, "-prop", prop, "-tier", tier, "-seed", str(seed), "-driver", DRIVER, "-out", outp]
+    if budget:
+        cmd += ["-budget", str(budget)]
     if timeout is None:
         timeout = 3600 if tier == "thorough" else 1500
     try:
@@ -310,8 +312,8 @@ def main():
         # step 4: a broken obligation or correspondence widens the search for a concrete failing input
         if res is not None and (broken or any(f.get("stream") == "correspondence" for f in failures)) and not any(f.get("stream") == "oracle" for f in failures):
             # (in the quick tier the deep round is bounded: a check that is run on every change must come back)
-            for extra_seed, extra_tier, limit in ((seed + 1000, tier, None), (seed + 2000, "thorough", 150 if tier == "quick" else None)):
-                rc2, res2, races2, _ = run_harness(binary, prop, extra_tier, extra_seed, log, timeout=limit)
+            for extra_seed, extra_tier, limit in ((seed + 1000, tier, None), (seed + 2000, "thorough", 120 if tier == "quick" else None)):
+                rc2, res2, races2, _ = run_harness(binary, prop, extra_tier, extra_seed, log, timeout=(limit + 240 if limit else None), budget=limit)
                 if res2 is not None:
                     res["evaluations"] = res.get("evaluations", 0) + res2.get("evaluations", 0)
                     orc = [f for f in res2.get("failures", []) if f.get("stream") == "oracle"]
